@@ -16,9 +16,17 @@ def marker_of(name):
     return 'mk_' + name.lower()
 
 
-def render(version, check_delay):
+def render(version, check_delay, part=None):
+    """part: None = everything in one file; 'main' / 'inc' = the file split
+    in two, the watchers named in version['inc'] (and their env sections)
+    living in an included file"""
+    inc = [n.lower() for n in version.get('inc') or []]
     ws = []
     for w in version['watchers']:
+        if part == 'main' and w['name'].lower() in inc:
+            continue
+        if part == 'inc' and w['name'].lower() not in inc:
+            continue
         ent = {'name': w['name'],
                'cmd': 'worker --marker=%s --wid=$(circus.wid)%s' % (
                    marker_of(w['name']), w.get('cmd_extra', '')),
@@ -26,8 +34,16 @@ def render(version, check_delay):
         ent.update(w.get('opts', {}))
         ws.append(ent)
     envs = [(w['name'], w['env']) for w in version['watchers']
-            if w.get('env')]
-    return ini.render(circus={'check_delay': check_delay}, watchers=ws,
+            if w.get('env') and w['name'] in [x['name'] for x in ws]]
+    if part == 'inc':
+        txt = ini.render(circus={}, watchers=ws, env_sections=envs)
+        # (an included file has no [circus] section of its own)
+        i = txt.find('\n\n')
+        return txt[i + 2:] if i >= 0 else ''
+    circus = {'check_delay': check_delay}
+    if part == 'main':
+        circus['include'] = '@SCRATCH@/inc.ini'
+    return ini.render(circus=circus, watchers=ws,
                       env=version.get('env'), env_sections=envs)
 
 
@@ -50,10 +66,18 @@ class C12Episode(Episode):
         self.world.build_from_ini(self.ini_path)
 
     def write(self, version):
-        txt = render(version, self.cfg.get('check_delay', 1.0))
-        txt = txt.replace('@SCRATCH@', os.path.dirname(self.ini_path))
+        d = os.path.dirname(self.ini_path)
+        split = bool(version.get('inc'))
+        txt = render(version, self.cfg.get('check_delay', 1.0),
+                     'main' if split else None)
         with open(self.ini_path, 'w') as f:
-            f.write(txt)
+            f.write(txt.replace('@SCRATCH@', d))
+        inc = os.path.join(d, 'inc.ini')
+        if split:
+            with open(inc, 'w') as f:
+                f.write(render(version, 0, 'inc').replace('@SCRATCH@', d))
+        elif os.path.exists(inc):
+            os.unlink(inc)
 
     def run_ops(self):
         for i, v in enumerate(self.case['versions'][1:]):
@@ -219,7 +243,8 @@ class C12Episode(Episode):
                               '%d -> %d: workers %s -> %s' %
                               (idx, n, oldw[n]['np'], neww[n]['np'], b4, af),
                               once=(idx, n), edit=edit)
-        if edit == 'noop' and (len(k.spawns) != s0 or len(k.signals) != g0):
+        if edit in ('noop', 'move') and (len(k.spawns) != s0 or
+                                         len(k.signals) != g0):
             self.viol('noop_reload_had_effects', 'reloading an unchanged '
                       'file: %d spawns, %d signals' %
                       (len(k.spawns) - s0, len(k.signals) - g0), once=idx)
@@ -238,7 +263,9 @@ class C12(Prop):
             'add / remove a watcher, change numprocesses only, change cmd, '
             'env or another option, add an option that is absent from the '
             'defaults (max_age) and remove it again, revert to an earlier '
-            'value, no-op rewrite; each followed by a waiting reloadconfig. '
+            'value, no-op rewrite; in a fifth of the cases part of the '
+            'sections lives in an included file and sections move between '
+            'the two files; each followed by a waiting reloadconfig. '
             'after every reload, at quiescence, the daemon is compared with '
             'a fresh daemon started on the same file in a second simulator '
             'universe (watcher set, options replies, status, live workers, '
@@ -266,6 +293,11 @@ class C12(Prop):
                 w0['opts']['stdout_stream.class'] = 'FileStream'
                 w0['opts']['stdout_stream.filename'] = \
                     '@SCRATCH@/%s-out.log' % w0['name']
+        with_inc = rng.random() < 0.2
+        if with_inc:
+            # part of the configuration lives in an included file
+            v['inc'] = [w0['name'] for w0 in v['watchers']
+                        if rng.random() < 0.6]
         versions = [v]
         n = rng.choice([1, 2, 3, 4, 6, 8]) if tier == 'quick' else \
             rng.choice([2, 4, 6, 8])
@@ -278,7 +310,19 @@ class C12(Prop):
                 kinds += ['remove', 'np', 'np', 'np', 'cmd', 'option',
                           'new_option', 'new_option', 'env', 'revert',
                           'drop_option', 'stream']
+            if with_inc and ws:
+                kinds += ['move', 'move']
             kind = rng.choice(kinds)
+            if kind == 'move':
+                # a section moves between the main and the included file:
+                # the configuration is the same
+                w = rng.choice(ws)
+                inc = list(v.get('inc') or [])
+                if w['name'] in inc:
+                    inc.remove(w['name'])
+                else:
+                    inc.append(w['name'])
+                v['inc'] = inc
             if kind == 'add':
                 free = [x for x in NAMES if x.lower() not in
                         [y['name'].lower() for y in ws]]
@@ -290,6 +334,8 @@ class C12(Prop):
                                'opts': {'graceful_timeout': 0.05}})
                     if rng.random() < 0.25:
                         ws[-1]['opts']['autostart'] = 'False'
+                    if with_inc and rng.random() < 0.5:
+                        v['inc'] = list(v.get('inc') or []) + [ws[-1]['name']]
             if kind == 'remove':
                 ws.pop(rng.randrange(len(ws)))
             elif kind == 'np':
@@ -348,7 +394,7 @@ class C12(Prop):
             if json.dumps(v.get('watchers'), sort_keys=True) == \
                     json.dumps(versions[-1].get('watchers'), sort_keys=True) \
                     and v.get('env') == versions[-1].get('env'):
-                kind = 'noop'
+                kind = 'move' if kind == 'move' else 'noop'
             v['edit'] = kind
             versions.append(v)
             history.append(copy.deepcopy(v))
